@@ -559,8 +559,35 @@ func (t *c03) dnsQuery(r *rand.Rand) {
 		labels = append(labels, string(l))
 	}
 	name := strings.Join(labels, ".")
+	if r.Intn(4) == 0 {
+		// names at and just below the RFC 1035 limit (253 characters = 255 octets on the wire), built from labels of up to 63
+		total := []int{253, 253, 252, 251, 250, 64 + r.Intn(190)}[r.Intn(6)]
+		labels = labels[:0]
+		for left := total; left > 0; {
+			n := 1 + r.Intn(63)
+			if n > left {
+				n = left
+			}
+			if left-n == 1 { // a lone dot cannot end the name
+				if n > 1 {
+					n--
+				} else {
+					n = 2
+				}
+			}
+			l := make([]byte, n)
+			for k := range l {
+				l[k] = "abcdefghijklmnopqrstuvwxyz0123456789"[r.Intn(36)]
+			}
+			labels = append(labels, string(l))
+			left -= n + 1
+		}
+		name = strings.Join(labels, ".")
+		nl = len(labels)
+		c.Obs("dns_names_near_limit", 1)
+	}
 	id, flags, qt := rw(r), rw(r)&0x7fff, rw(r)
-	cs := map[string]any{"encoder": "EncodeDNSQuery", "name": name, "id": id, "flags": flags, "qtype": qt}
+	cs := map[string]any{"encoder": "EncodeDNSQuery", "name": name, "name_len": len(name), "id": id, "flags": flags, "qtype": qt}
 	var p packet.DNS
 	if pi := c.Guard("C03", func() any { cs["index"] = t.idx; return cs }, func() { p = packet.EncodeDNSQuery(id, flags, wireName(name), qt) }); pi != nil {
 		return
@@ -576,7 +603,10 @@ func (t *c03) dnsQuery(r *rand.Rand) {
 		t.viol("encode:DNSQuery:fields(views)", fmt.Sprintf("DecodeQuestion: %q type=%d class=%d off=%d/%d err=%v", q.Name, q.Type, q.Class, off, len(p), err), cs)
 		return
 	}
-	c.Class(fmt.Sprintf("dnsquery labels=%d", nl))
+	c.Class(fmt.Sprintf("dnsquery labels=%d len~%d", min(nl, 8), len(name)/32*32))
+	if len(name) == 253 {
+		c.Obs("dns_names_of_253", 1)
+	}
 }
 
 func (t *c03) ndp(r *rand.Rand) {
